@@ -222,6 +222,19 @@ def derive_priv(node, indices, depth=0, fp=ZERO_FP, num=0):
     return (k, c, depth, fp, num)
 
 
+def priv_fields_equal(fields, node):
+    """fields = (secret, chain code, depth, parent fp, child number, point, chain code, depth, parent fp, child number)
+    of a real private node and of its public twin; node = (k, c, depth, fp, num) of the spec"""
+    k, c, depth, fp, num = node
+    return (fields[0] == k and fields[1] == c and fields[2] == depth and fields[3] == fp and fields[4] == num and
+            curve.same(fields[5], curve.mul_G(k)) and fields[6] == c and fields[7] == depth and fields[8] == fp and fields[9] == num)
+
+
+def pub_fields_equal(fields, node):
+    K, c, depth, fp, num = node
+    return curve.same(fields[0], K) and fields[1] == c and fields[2] == depth and fields[3] == fp and fields[4] == num
+
+
 def derive_pub(node, indices, depth=0, fp=ZERO_FP, num=0):
     K, c = node
     for i in indices:
